@@ -61,6 +61,15 @@ def make_substitution(ccls, case_map=None):
             if callable(rspec) and not hasattr(rspec, "kind"):
                 rspec = rspec(**callee_case)
             for expr_name, spec in mods.items():
+                if expr_name.startswith("region("):
+                    # "region(x).field": the callee may change this field of ANY object of x's region
+                    pname, fname = expr_name[len("region("):].split(").")
+                    elem = ns[pname]
+                    rcell = path.cell(elem.map_ref)
+                    kind, arr = rcell.fields[fname]
+                    rcell.fields = dict(rcell.fields)
+                    rcell.fields[fname] = (kind, z3.Array(path.fresh_name(f"{site}#{n}.{fname}"), z3.IntSort(), arr.sort().range()))
+                    continue
                 parts = expr_name.split(".")
                 base = ns[parts[0]]
                 for a in parts[1:-1]:
@@ -71,11 +80,15 @@ def make_substitution(ccls, case_map=None):
             for name, f in contract_functions(ccls, "ensures"):
                 v = I.spec_call(f, bind_by_name(f, ns))
                 cell = path.cell(v) if isinstance(v, Ref) else None
-                if isinstance(cell, DictCell):
-                    for c in cell.d.values():
-                        path.assume(I.truthy(c))
-                else:
-                    path.assume(I.truthy(v))
+                clauses = list(cell.d.items()) if isinstance(cell, DictCell) else [(name, v)]
+                for cname, c in clauses:
+                    t = I.truthy(c)
+                    if t is False:
+                        # a postcondition that is literally false would silently end the path (everything after the call
+                        # vacuously proved): that is a defect of the contract (e.g. no `returns` shape), never a proof
+                        raise Unsupported(f"postcondition '{cname}' of the call-site contract {ccls.cname} is constantly false here "
+                                          f"(missing `returns` shape?)")
+                    path.assume(t)
             return result
         finally:
             I.old_heap = saved_old
